@@ -32,6 +32,10 @@ Pipeline
      shape of the parsed cfg at each link's target action is read from the real cfg and handed to the model (`targetSlots`).
      Correspondence d: real ActionLink.set_target_value on hand-made configurations vs model `targetSlots`.
      Statement ties: Gen/LinkFlowSrc (extractor link_flow_src) pins the eight transcribed functions (tie_* theorems).
+     Nested keys: the driver evaluates the decidable classes of the nested-key theorems (NestedKeysOK, ContainmentCovered,
+     SourcesTopLevel) on every real parser; cross-check: excluded => the scenario is in the catalogued finding class, inside =>
+     the real run built every source before every consumer.  Chains: links whose source is itself fed by another link, chains of
+     3-5 components in four declaration orders, walked end to end by instance identity.
   5. open findings are replayed (still failing -> KNOWN-FINDING).
 """
 from __future__ import annotations
@@ -57,12 +61,18 @@ MANIFEST = {
                  "on real parsers (class groups, subclass arguments, nested specs, lists of subclass specs with mixed signatures)",
     "text": "Theorems in lean/Jap/Props/C16.lean prove for every sequence of add_edge calls that get_topological_order returns a permutation of the "
             "nodes with every edge forward, fails only with an edge closing a real cycle, and succeeds iff the graph is acyclic (fuel n+1 suffices); that "
-            "reorder is the stable sort by first matching key; that with flat keys every source component precedes the component it feeds; and, on "
+            "reorder is the stable sort by first matching key; that - for link sets of any size with sources and targets nested at any depth, outside "
+            "the decidable class of a key that is only a source and contains a target (NestedKeysOK; the three nested findings are exactly the "
+            "excluded classes NestedKeysOK / ContainmentCovered / SourcesTopLevel, each with its negation witness) - every source component precedes "
+            "EVERY component consuming the link (C16_instantiate_nested), that instantiation_order rejects exactly the sets whose dependencies "
+            "including containment are cyclic (C16_reject_cycle_nested), that constructor calls happen in chain order along chains of links of any "
+            "length (C16_chain_delivery); and, on "
             "the value-flow model of set_target_value/apply_instantiation_links/instantiate_classes (applied-links set kept in the per-call cfg, opaque "
             "compute_fn table, constructor log, target positions = the target key or, for a target inside a list of subclass specs, the parameter in "
             "every item that has it), that every class component is constructed exactly once, every argument received through a link position is "
             "F(constructed source objects/attributes) and every position of every feeding link inside a component is filled whenever the sources are "
-            "ready - which the order theorems give for acyclic link sets with owned keys; that a list target is written in every item having the "
+            "ready - which the order theorems give for acyclic link sets with owned keys and, without ownership, inside NestedKeysOK "
+            "(C16_fed_value_nested); that a list target is written in every item having the "
             "parameter and nowhere else (C16_list_delivery); and that every call starts with an empty applied set because the bookkeeping lives in "
             "cfg (regenerated Gen/LinkBookkeeping). The statements of set_target_value, apply_instantiation_links, instantiation_order, reorder, "
             "DirectedGraph.add_edge/get_topological_order/topological_sort and of the component loop of instantiate_classes are regenerated into "
@@ -73,8 +83,9 @@ MANIFEST = {
     "level_note": "Trusted: Lean kernel; axioms propext/Quot.sound/Classical.choice only; the correspondence harness; list(set) iteration order is taken "
                   "from the running interpreter and passed to the model; the shape of the parsed configuration at a link's target action (which items "
                   "of a list hold which keys) is read from the real cfg and passed to the model. The full component-order statement is false for the "
-                  "code (open finding C16-nested-target-in-source: a link target nested inside a component that is itself a link source); proved under "
-                  "the explicit FlatKeys hypothesis, negation proved on a witness. Open finding C16-list-below-subclass-dropped: a list target below a "
+                  "code (open finding C16-nested-target-in-source: a link target nested inside a component that is only a link source); proved under "
+                  "the decidable hypothesis NestedKeysOK (nested keys of any depth; the FlatKeys theorem is kept), negation proved on a witness; the "
+                  "model's classes are cross-checked against the catalogued finding signatures and the real run on every scenario. Open finding C16-list-below-subclass-dropped: a list target below a "
                   "subclass spec receives nothing (model agrees with the code, witness in Props). Outside: interpreter recursion limit (chains of ~1000 "
                   "links), nested links applied inside a subclass (is_nested_instantiation_link), links whose source attribute is missing at run time, "
                   "the type check of a link into a whole subclass-typed argument, list items that are not Namespaces.",
@@ -278,7 +289,7 @@ def exhaustive_reorder_cases():
 # ---------------------------------------------------------------------------------------------
 def classes_source():
     out = ["from typing import Any, List", "", "LOG = []", "", "", "def _log(name, obj, kw):", "    LOG.append((name, obj, dict(kw)))", "", ""]
-    for i in range(4):
+    for i in range(6):
         out += [
             "class K%d:" % i,
             "    def __init__(self, p0: Any = 'K%d.p0', p1: Any = 'K%d.p1', p2: Any = 'K%d.p2', p3: Any = 'K%d.p3'):" % (i, i, i, i),
@@ -678,9 +689,12 @@ def run_acyclic(sc):
     try:
         cfg = parser.parse_args(parse_args_for(sc))
         obs["targets"] = target_shapes(parser, cfg)  # snapshot before instantiation
-        with Recorder() as rec:
-            parser.instantiate_classes(cfg)
-        obs["reorder_calls"] = rec.calls
+        rec = Recorder()
+        try:
+            with rec:
+                parser.instantiate_classes(cfg)
+        finally:
+            obs["reorder_calls"] = rec.calls  # also when the call raises: the component order was computed before
         obs["schedule"] = rec.schedule(parser)
     except Exception as ex:  # noqa: BLE001
         fails.append("exception: %s: %s" % (type(ex).__name__, str(ex)[:200]))
@@ -727,6 +741,8 @@ def run_acyclic(sc):
             ok = same_value(got, want)
             if not ok:
                 fails.append("parameter %s of %s did not receive the linked value (got %s)" % (slot, tname if is_elems(tobj) else tobj, type(got).__name__ if not isinstance(got, str) else got))
+    if not fails:
+        fails.extend(chain_walk_failure(sc, first))
     # parameters no link feeds are untouched: a plain-data parameter still holds its default "<Class>.<param>"
     for n, (_, _, kw) in first.items():
         for k, v in kw.items():
@@ -1294,6 +1310,73 @@ def correspond_set_target_value(ctx, state):
     ctx.extra["set_target_value_disagreements"] = state["stv_disagreements"]
 
 
+CHAIN_NAMES = ["a", "ab", "b", "a_b", "m.a", "c"]
+
+
+def chain_scenarios(rng):
+    """links whose source is itself the target of another instantiate link: chains of 3, 4 and 5 components (6 with the
+    list holder variant), mixed component kinds, object / attribute / compute_fn links, a second source taken from the start
+    of the chain; declared forwards, backwards and in two shuffled orders (components and links)"""
+    kinds_cycle = ["group", "subclass", "typed", "deepsub", "group", "listgroup"]
+    for n in (3, 4, 5):
+        for shift in range(3 if n < 5 else 2):
+            comps = []
+            for i in range(n):
+                kind = kinds_cycle[(i + shift) % len(kinds_cycle)]
+                if i == n - 1:
+                    kind = ["deepsub", "listgroup", "deepgroup"][shift]  # the end of the chain: a nested target / a list target
+                c = {"name": CHAIN_NAMES[i], "kind": kind, "cls": i}
+                if kind == "listgroup":
+                    c["elems"] = ["", "n", "a"]
+                comps.append(c)
+            links = []
+            for i in range(1, n):
+                prev, cur = comps[i - 1], comps[i]
+                style = (i + shift) % 4
+                srcs = [[prev["name"], [None, "at", None, "bt"][style]]]
+                fn = [None, "f1", None, "f2"][style]
+                if style == 3 and i >= 2:
+                    srcs.append([comps[0]["name"], None])
+                # mid-chain components are sources themselves: feed the object itself (a target nested inside a source is the
+                # open finding class); the last one is fed in its deepest object / in every element of its list
+                if cur["kind"] in DEEP_KINDS:
+                    tgt = [cur["name"], "r"] if i < n - 1 else [cur["name"] + "/child/grandchild", "g"] if shift % 2 == 0 else [cur["name"] + "/child", "p"]
+                elif cur["kind"] == "listgroup":
+                    tgt = [cur["name"], "r"] if i < n - 1 else [cur["name"] + "/*", "p0"]
+                else:
+                    tgt = [cur["name"], "p0"]
+                links.append({"sources": srcs, "target": tgt, "fn": fn})
+            base = {"comps": comps, "links": links}
+            yield n, base
+            yield n, {"comps": comps[::-1], "links": links[::-1]}
+            for _ in range(2):
+                yield n, {"comps": rng.sample(comps, n), "links": rng.sample(links, len(links))}
+
+
+def chain_walk_failure(sc, obs_first):
+    """the chain end to end: starting from the object built for the last component, following at every step the argument a
+    plain object link delivered, one must arrive at the instance built for the first component (identity of instances)"""
+    by_target = {}
+    for l in sc["links"]:
+        if not l.get("fn") and len(l["sources"]) == 1 and l["sources"][0][1] is None and not is_elems(l["target"][0]):
+            by_target[comp_of(l["target"][0])] = l
+    problems = []
+    for c in sc["comps"]:
+        cur, steps = c["name"], 0
+        while cur in by_target and steps < 10:
+            l = by_target[cur]
+            tname = class_of(sc, l["target"][0])
+            if l["target"][1] not in obs_first[tname][2]:
+                break  # the class given for the target lacks the parameter: the link is dropped, the chain ends here
+            got = obs_first[tname][2][l["target"][1]]
+            sname = class_of(sc, l["sources"][0][0])
+            if got is not obs_first[sname][1]:
+                problems.append("chain: %s.%s does not hold the instance built for %s" % (l["target"][0], l["target"][1], l["sources"][0][0]))
+                break
+            cur, steps = l["sources"][0][0], steps + 1
+    return problems
+
+
 def list_target_scenarios():
     """deterministic family (independent of the seed): links into the parameters of the classes of a LIST of subclass
     specs - homogeneous, mixed (some element classes lack the parameter), none having it, empty - for the three list
@@ -1472,7 +1555,7 @@ def shrink_scenario(sc, cyclic):
 def correspond_parsers(ctx, items, state):
     """correspondence c: items = [(scenario, parser, reorder_calls, schedule or None)]"""
     lines, meta = [], []
-    for sc, parser, calls, sched in items:
+    for sc, parser, calls, sched, fails in items:
         links, set_order = model_links_of(parser)
         real = real_inst_order(parser)
         lines.append({"op": "inst_order", "links": links, "set_order": set_order})
@@ -1483,7 +1566,7 @@ def correspond_parsers(ctx, items, state):
         if calls:
             c0 = calls[0]
             lines.append({"op": "components", "links": links, "set_order": set_order, "dests": c0["dests"]})
-            meta.append(("comps", sc, c0, sched))
+            meta.append(("comps", sc, c0, (sched, fails)))
     model = driver(ctx, lines, "instantiation_order")
     if model is None:
         return
@@ -1510,11 +1593,32 @@ def correspond_parsers(ctx, items, state):
                 if state["inst_disagreements"] <= 3:
                     ctx.tie_break("correspondence E5 (component order of instantiate_classes vs model) disagrees",
                                   json.dumps({"scenario": sc, "real": real, "model": m})[:1800])
-            elif extra is not None and m.get("schedule") != extra:
+            elif extra[0] is not None and m.get("schedule") != extra[0]:
                 state["inst_disagreements"] += 1
                 if state["inst_disagreements"] <= 3:
                     ctx.tie_break("correspondence E5 (links applied per component by apply_instantiation_links vs model schedule) disagrees",
-                                  json.dumps({"scenario": sc, "real": extra, "model": m.get("schedule")})[:1800])
+                                  json.dumps({"scenario": sc, "real": extra[0], "model": m.get("schedule")})[:1800])
+            if "nested_ok" in m:
+                # the decidable classes of the nested-key theorems against the catalogued finding signatures and the real run
+                fails = extra[1]
+                nok, stl, cov = m["nested_ok"], m["sources_top_level"], m["containment_covered"]
+                ctx.hist("nested_key_class", ("NestedKeysOK" if nok else "excluded:target-in-source-only-key") + ("" if stl else "+nested-source")
+                         + ("" if cov else "+containment-uncovered"))
+                problem = None
+                if not nok and not nested_target_in_source(sc):
+                    problem = "NestedKeysOK excludes a link set outside the catalogued class C16-nested-target-in-source"
+                elif not stl and not nested_source_below_linked(sc):
+                    problem = "SourcesTopLevel excludes a link set outside the catalogued class C16-nested-source-after-enclosing-group"
+                elif nok and any("constructed after the object" in f for f in fails):
+                    problem = "the hypothesis of C16_instantiate_nested holds, yet the real run built a source after its consumer"
+                elif nok and stl and fails and not is_sublist_drop_failure(sc, fails):
+                    problem = "the hypotheses of the nested-key theorems hold, yet the real run failed: %s" % fails[0][:120]
+                if problem:
+                    state["inst_disagreements"] += 1
+                    if state["inst_disagreements"] <= 3:
+                        ctx.tie_break("correspondence E5 (decidable link-set classes vs real run): " + problem,
+                                      json.dumps({"scenario": sc, "model": {k: m[k] for k in ("nested_ok", "sources_top_level", "containment_covered")},
+                                                  "failures": fails[:3]})[:1800])
 
 
 def correspond_flow(ctx, state):
@@ -1673,8 +1777,11 @@ def run_e2e(ctx, state, n_shapes, cap, n_cyclic, corpus_scenarios):
             state["e2e_acyclic"] += 1
             if len(sc["links"]) >= 2:
                 ctx.nontrivial(key)
-            if "parser" in obs and len(items) < state["max_parser_corr"]:
-                items.append((sc, obs["parser"], obs.get("reorder_calls"), obs.get("schedule") if not fails else None))
+            special = bool(fails) or nested_target_in_source(sc) or nested_source_below_linked(sc)  # the classes the nested-key theorems exclude
+            if special:
+                state["special_items"] += 1
+            if "parser" in obs and (len(items) < state["max_parser_corr"] or (special and state["special_items"] <= ctx.budget(250, 2500))):
+                items.append((sc, obs["parser"], obs.get("reorder_calls"), obs.get("schedule") if not fails else None, list(fails)))
                 if not fails and obs.get("reorder_calls"):
                     state["flow_items"].append((sc, obs["reorder_calls"][0], obs["log_full"], obs["targets"]))
         classify_e2e(ctx, sc, fails, cyclic, state, origin)
@@ -1691,6 +1798,17 @@ def run_e2e(ctx, state, n_shapes, cap, n_cyclic, corpus_scenarios):
         one(sc, False, "three-level")
         n3 += 1
     ctx.extra["three_level_target_scenarios"] = n3
+    for f in ctx.open_findings():  # the witnesses of the open findings also go through the model's decidable classes (cross-check)
+        w = f["witness"]
+        if not w.get("cyclic"):
+            for pl in itertools.permutations(w["scenario"]["links"]):
+                one({"comps": w["scenario"]["comps"], "links": list(pl)}, False, "finding-witness")
+    nch = {}
+    for n, sc in chain_scenarios(ctx.rng):
+        one(sc, False, "chains")
+        nch[n] = nch.get(n, 0) + 1
+        ctx.hist("e2e_chain_length", n)
+    ctx.extra["chain_scenarios_by_length"] = nch
     nl = 0
     for sc in list_target_scenarios():
         one(sc, False, "list-targets")
@@ -1763,7 +1881,7 @@ def run(ctx: Ctx):
     ctx.lean_build(extractors=["link_bookkeeping", "link_flow_src"])
     state = {"graph_violations": 0, "graph_disagreements": 0, "neighbour_graphs": [], "reorder_violations": 0, "reorder_disagreements": 0,
              "e2e_violations": 0, "e2e_acyclic": 0, "e2e_cyclic": 0, "known_hits": 0, "inst_disagreements": 0, "max_parser_corr": ctx.budget(400, 4000),
-             "flow_items": [], "flow_disagreements": 0, "bookkeeping_runs": 0, "stv_disagreements": 0, "stv_violations": 0}
+             "flow_items": [], "flow_disagreements": 0, "bookkeeping_runs": 0, "stv_disagreements": 0, "stv_violations": 0, "special_items": 0}
 
     from ..lib import corpus as corpus_mod
 
